@@ -184,7 +184,7 @@ def replay(name, prefix):
 def run(tier, seed, result):
     total = 0
     complete = True
-    bound, cap = (None, 20000) if tier == 'quick' else (None, 300000)
+    bound, cap = (None, 20000) if tier == 'quick' else (None, 100000)
     for name, st, viols, n in pmap(job, [(n, bound, cap) for n in SCENARIOS]):
         total += st['executions']
         complete = complete and st['complete']
